@@ -38,6 +38,10 @@ CLAIMED = {
          "Exploration. Generated multi-unit forests over every unit type and header layout, tree shape class, abbreviation-code scheme (incl. codes >= 2^63 and codes aliasing modulo 2^32) and DW_AT_sibling placement are assembled independently; every navigation API must report exactly the assembler's (offset, depth, tag, children flag, attribute count, parent) records, from the root and from every entry offset; header accessors, offset conversions and abbreviation lookup for present/absent codes are compared; duplicate-code tables must be rejected. Both build profiles.",
          "Trusts the assembler and its layout record in harness/src/dieasm.rs. Forests are well formed (sibling pointers target the next sibling or the terminating null).",
          "DESIGN.md §4 C02"),
+ 'C08': ("proptest random search over generated range/location lists in every encoding, assembled independently; oracle = list-resolution model (running base address, address table, offset tables, documented filters); validity predicates over arbitrary bytes",
+         "Exploration. Generated lists over every DW_RLE_*/DW_LLE_* kind, the legacy pair format and the GNU split-DWARF location encoding with boundary addresses, address tables and offset tables behind non-zero bases are checked entry by entry: raw iteration against the encoded entries, cooked iteration against the model, and the per-entry/per-unit helpers (die_ranges, unit_ranges, attr_ranges_offset, attr_locations, ranges_offset_from_raw) through a generated unit. For arbitrary bytes every yielded range must be non-empty and below the tombstones and the iterators must finish within a bound. Both build profiles.",
+         "Trusts the list model and encoders in harness/src/c08.rs (DESIGN appendix A.4) and the DIE assembler. gimli's documented tombstone/empty-range filtering is part of the model.",
+         "DESIGN.md §4 C08, appendix A.4"),
 }
 NOT_YET = "check not built yet in this session (machinery is being extended property by property; see DESIGN.md §4)"
 
